@@ -157,10 +157,31 @@ theorem sgr_256_out_of_range (dflt a : Attr) (m : Nat) (hm : 256 ≤ m) :
   have : ¬ m < 256 := by omega
   simp [specSgr, specLoop, specAct, this]
 
-theorem sgr_rgb (dflt a : Attr) (r g b : Nat) :
+theorem sgr_rgb (dflt a : Attr) (r g b : Nat) (h : r ≤ 255 ∧ g ≤ 255 ∧ b ≤ 255) :
     specSgr dflt [38, 2, r, g, b] a = { a with fg := hex2 r ++ hex2 g ++ hex2 b } ∧
     specSgr dflt [48, 2, r, g, b] a = { a with bg := hex2 r ++ hex2 g ++ hex2 b } := by
-  simp [specSgr, specLoop, specAct, setColor]
+  simp [specSgr, specLoop, specAct, setColor, h]
+
+/-- a component above 255 is not a colour: the form is ignored, and its five parameters are consumed
+    (the code that follows is applied as usual) -/
+theorem sgr_rgb_out_of_range (dflt a : Attr) (r g b : Nat) (h : ¬ (r ≤ 255 ∧ g ≤ 255 ∧ b ≤ 255)) :
+    specSgr dflt [38, 2, r, g, b] a = a ∧ specSgr dflt [48, 2, r, g, b] a = a ∧
+    specSgr dflt [38, 2, r, g, b, 1] a = { a with bold := true } := by
+  simp [specSgr, specLoop, specAct, h]
+  rfl
+
+/-- an in-range colour is exactly six hexadecimal digits -/
+theorem hex2_length (n : Nat) (h : n ≤ 255) : (hex2 n).length = 2 := by
+  unfold hex2
+  split
+  · rfl
+  · rename_i h16
+    have h2 : n / 16 < 16 := by omega
+    simp [hexDigits, h16, h2]
+
+theorem rgb_six_digits (r g b : Nat) (h : r ≤ 255 ∧ g ≤ 255 ∧ b ≤ 255) :
+    (hex2 r ++ hex2 g ++ hex2 b).length = 6 := by
+  simp [hex2_length, h.1, h.2.1, h.2.2]
 
 theorem sgr_reset (dflt a : Attr) : specSgr dflt [0] a = dflt ∧ specSgr dflt [] a = dflt := by
   simp [specSgr, specLoop]
